@@ -1210,7 +1210,7 @@ where
     fn is_define_component_call(&self, CallExpr { callee, .. }: &CallExpr) -> bool {
         callee
             .as_expr()
-            .and_then(|expr| expr.as_ident())
+            .and_then(|expr| expr.unwrap_parens().as_ident())
             .and_then(|ident| {
                 self.define_component
                     .map(|ctxt| ctxt == ident.ctxt && ident.sym == "defineComponent")
@@ -1570,7 +1570,11 @@ where
         let Pat::Ident(name) = &var_declarator.name else {
             return;
         };
-        let Some(Expr::Call(call)) = var_declarator.init.as_deref_mut() else {
+        let Some(Expr::Call(call)) = var_declarator
+            .init
+            .as_deref_mut()
+            .map(|init| init.unwrap_parens_mut())
+        else {
             return;
         };
         if !self.is_define_component_call(call) {
